@@ -17,6 +17,7 @@ package stl
 
 //@ func Write
 //@   props C07
+//@   modifies ghost written, ghost lastSlice, ghost lastInt
 //@   requires len(bin.Triangles) < 4294967296
 //@   returns err
 //@   ensures size_law: err == nil ==> written(out) == old(written(out)) + 84 + 50 * len(bin.Triangles)
@@ -30,6 +31,7 @@ package stl
 
 //@ func WriteMesh
 //@   props C07
+//@   modifies ghost written, ghost lastSlice, ghost lastInt
 //@   requires tri_multiple: len(m.indices) % 3 == 0 && len(m.indices) / 3 < 4294967296
 //@   requires pos_in_range: has(m.v3Data, "Position") ==> modeling.idxInRange(m, len(m.v3Data["Position"]))
 //@   requires nrm_in_range: has(m.v3Data, "Normal") ==> modeling.idxInRange(m, len(m.v3Data["Normal"]))
